@@ -60,7 +60,7 @@ func nullDataPk() []byte {
 func (w *World) strangerCoin(l *Ledger, skip map[wire.OutPoint]bool) *Coin {
 	for _, c := range l.ByOrder {
 		if c.SpentAt == 0 && c.Owner == nil && c.Class == ClassStd && string(c.Hash) == string(w.SHash) &&
-			!skip[c.OP] && w.NextSpendable(c, l) {
+			!skip[c.OP] && !w.relayedSpends(c.OP) && w.NextSpendable(c, l) {
 			return c
 		}
 	}
@@ -71,7 +71,7 @@ func (w *World) strangerCoin(l *Ledger, skip map[wire.OutPoint]bool) *Coin {
 func (w *World) walletCoin(l *Ledger, role string, class int, skip map[wire.OutPoint]bool) *Coin {
 	for _, c := range l.ByOrder {
 		if c.SpentAt == 0 && c.Owner != nil && c.Owner.Wallet == role && c.Class == class && c.Value > 0 &&
-			!skip[c.OP] && w.NextSpendable(c, l) {
+			!skip[c.OP] && !w.relayedSpends(c.OP) && w.NextSpendable(c, l) {
 			return c
 		}
 	}
@@ -216,6 +216,11 @@ func (w *World) reorgGens(k int, pat string) (gens []func(*simnode.Block) []*wir
 				for _, in := range tx.TxIn {
 					c := l.Coins[in.PreviousOutPoint]
 					if !(c != nil && c.SpentAt == 0) && !made[in.PreviousOutPoint.Hash] {
+						valid = false
+					}
+				}
+				for _, o := range tx.TxOut {
+					if cl, _, _, target := Classify(o.PkScript); cl == ClassBinding && (len(target) == 22) != forks.EnforceMASSIP0002WarmUp(p.Height+1) {
 						valid = false
 					}
 				}
